@@ -350,6 +350,8 @@ def shrink(mod, pid, case, cls, known, budget_s=60.0):
     best = case
     improved = True
     tried = 0
+    if getattr(mod, "NO_SHRINK", False):
+        return case, 0
     # a candidate whose fault-free twin already shows the violation is a different (workload) problem,
     # unless the original case was like that too
     twin_bad = _same(mod, _twin(case), cls, known, pid)
